@@ -55,6 +55,7 @@ var c05PostMutations = []Defect{
 	{Name: "edit-issuer-other-sp"}, {Name: "strip-sig"}, {Name: "empty-sigvalue"}, {Name: "empty-digest"}, {Name: "flip-sigvalue"}, {Name: "flip-digest"},
 	{Name: "sigalg-subst", Param: world.AlgRSASHA1}, {Name: "sigalg-subst", Param: world.AlgRSASHA256}, {Name: "sigalg-subst", Param: "urn:example:none"}, {Name: "digestalg-subst"},
 	{Name: "wrap-extensions"}, {Name: "wrap-object"}, {Name: "wrap-same-id"}, {Name: "wrap-sig-last"},
+	{Name: "wrap-whole", Param: "Body/extensions"}, {Name: "wrap-whole", Param: "Body/child"}, {Name: "wrap-whole", Param: "soap:Body/child"}, {Name: "wrap-whole", Param: "Envelope/extensions"}, {Name: "wrap-whole", Param: "AuthnRequest/extensions"},
 	{Name: "rogue-key"}, {Name: "rogue-key-registered-cert"}, {Name: "rogue-key-no-keyinfo"},
 	{Name: "as-redirect"}, {Name: "add-signature-param", Param: "QUJD"}, {Name: "add-signature-param", Param: "!!"}, {Name: "add-sigalg-param"},
 	{Name: "dup-signature-element"}, {Name: "add-child-after-signing"}, {Name: "remove-keyinfo"}, {Name: "change-relaystate"},
@@ -81,6 +82,12 @@ func genC05Case(t *rapid.T) C05Case {
 	if rapid.Bool().Draw(t, "forcesp") {
 		spec.SPs[c.SP].AuthnRequestsSigned = rapid.SampledFrom([]string{"true", "1"}).Draw(t, "spflag")
 	}
+	// the rogue key may well be a certificate the provider registered - for encryption: that gives it no say in signatures
+	for i := range spec.SPs {
+		if rapid.IntRange(0, 2).Draw(t, "enckey") == 0 {
+			spec.SPs[i].EncKeyFirst = "rogue"
+		}
+	}
 	c.Orig = genValidAuthn(t, spec, c.SP, c.Host)
 	maybePassive(t, &c.Orig)
 	c.Orig.ProtocolBinding = rapid.SampledFrom([]string{A, world.BindPost, world.BindRedirect}).Draw(t, "pb")
@@ -95,6 +102,13 @@ func genC05Case(t *rapid.T) C05Case {
 		c.Alg = rapid.SampledFrom([]string{world.AlgRSASHA1, world.AlgRSASHA256}).Draw(t, "alg")
 		c.KeyName = spec.SPs[c.SP].KeyNames[0]
 		c.KeyInfo = rapid.IntRange(0, 3).Draw(t, "keyinfo") != 0
+	}
+	encOnly := false
+	if len(spec.SPs[c.SP].KeyNames) == 0 && spec.SPs[c.SP].EncKeyFirst != "" && rapid.Bool().Draw(t, "sign-with-encryption-key") {
+		// a provider that registered no signing certificate signs with the key of its encryption certificate
+		c.Alg = rapid.SampledFrom([]string{world.AlgRSASHA1, world.AlgRSASHA256}).Draw(t, "alg-enc")
+		c.KeyName = ""
+		encOnly = true
 	}
 	c.Noise = rapid.IntRange(0, 2).Draw(t, "noise") == 0
 	if rapid.IntRange(0, 7).Draw(t, "keyfault") == 0 {
@@ -117,6 +131,12 @@ func genC05Case(t *rapid.T) C05Case {
 	}
 	for i := 0; i < n; i++ {
 		c.Mut = append(c.Mut, pick(t, "mutation", cat))
+	}
+	if encOnly {
+		c.Mut = []Defect{{Name: rapid.SampledFrom([]string{"rogue-key", "rogue-key-no-keyinfo"}).Draw(t, "encmut")}}
+		if c.Binding == "redirect" {
+			c.Mut = []Defect{{Name: "rogue-key"}}
+		}
 	}
 	return c
 }
@@ -285,6 +305,41 @@ func c05Render(c C05Case, now time.Time) c05Rendered {
 				}
 			case "add-child-after-signing":
 				tree.Add(xt.NewElem(tree.Prefix, world.NSSAMLP, "Scoping").SetAttr("ProxyCount", "9"))
+			case "wrap-whole":
+				// the forged request bears no signature of its own; the genuine signed request travels inside it, whole, as the only
+				// child of an element with a name verifiers like to look for
+				if sig() == nil {
+					break
+				}
+				name, where, _ := strings.Cut(m.Param, "/")
+				forged := out.OrigRoot.Clone()
+				forged.SetAttr("AssertionConsumerServiceURL", "https://"+forgedMark+".example/acs")
+				forged.SetAttr("ProviderName", forgedMark)
+				forged.SetAttr("ID", "_"+forgedMark)
+				var holder *xt.Node
+				if pfx, local, ok := strings.Cut(name, ":"); ok {
+					holder = xt.NewElem(pfx, world.NSSOAP, local).Declare(pfx, world.NSSOAP)
+				} else if name == "AuthnRequest" {
+					holder = xt.NewElem("w", "urn:example:wrapper", "AuthnRequest").Declare("w", "urn:example:wrapper")
+				} else {
+					holder = xt.NewElem("", "", name)
+					holder.NS = append(holder.NS, xt.NSDecl{Prefix: "", URI: ""})
+				}
+				holder.Add(tree.Clone())
+				pos := 0
+				for i, ch := range forged.Children {
+					if ch.Kind == xt.KindElem && ch.Elem.Local == "Issuer" {
+						pos = i + 1
+					}
+				}
+				if where == "extensions" {
+					ext := xt.NewElem(forged.Prefix, world.NSSAMLP, "Extensions")
+					ext.Add(holder)
+					forged.InsertAt(pos, ext)
+				} else {
+					forged.InsertAt(pos, holder)
+				}
+				tree = forged
 			case "wrap-extensions", "wrap-object", "wrap-same-id", "wrap-sig-last":
 				s := sig()
 				if s == nil {
